@@ -108,15 +108,53 @@ func histScenarios(tier string, sets ...func(string) []*h.Scenario) []*h.Scenari
 	return out
 }
 
+// c04HistScenarios: fleet and SetDesiredCapacity groups with force-tainted / expired nodes at 200 %,
+// failing terminate calls, and the cloud group's maximum edited while escalator runs (configured
+// and auto-discovered bounds).
+func c04HistScenarios(tier string) []*h.Scenario {
+	var out []*h.Scenario
+	for _, v := range []string{"fleet", "setdesired", "auto"} {
+		g := StdGroup("g1")
+		g.Opts.ScaleUpCoolDownPeriod = dur(2)
+		switch v {
+		case "fleet":
+			g.Opts.AWS.LaunchTemplateID, g.Opts.AWS.LaunchTemplateVersion = "lt-1", "1"
+		case "auto":
+			g.Opts.MinNodes, g.Opts.MaxNodes = 0, 0
+			g.ASG.Min, g.ASG.Max = 1, 8
+		}
+		gg := g
+		s := &h.Scenario{Name: "c04.hist." + v, Groups: []h.GroupSpec{gg}, Slots: 6, Quantum: Q, MaxEventsPerSlot: 2,
+			FaultOps: map[string]bool{sim.OpTerminate: true, sim.OpSetDesired: true, sim.OpAttach: true},
+			Init: func(hh *h.Hist) {
+				a := InitASGs(hh)[0]
+				for i := 0; i < 2; i++ {
+					n := hh.W.AddNode(a, sim.NodeOpt{Age: time.Duration(10+i) * Q})
+					hh.W.AddPod(podOn(gg, n.Name, 1000))
+				}
+				hh.W.AddPod(podOn(gg, "", 6000))
+				hh.W.AddNode(a, sim.NodeOpt{Age: 30 * Q, ForceTaint: true})
+				hh.W.AddNode(a, sim.NodeOpt{Age: 31 * Q, TaintAge: dp(5 * Q)})
+			},
+			Events: func(hh *h.Hist, slot int) []h.Event {
+				return []h.Event{evASGEdit(gg.ASG.Name, gg.ASG.Min, 5), evASGEdit(gg.ASG.Name, gg.ASG.Min, 4), evASGEdit(gg.ASG.Name, gg.ASG.Min, 12),
+					evBurst(gg, 2, 3000), evClearAllPods(gg), evSkipSettle(), evRestart()}
+			},
+		}
+		out = append(out, s)
+	}
+	return out
+}
+
 func init() {
 	register(&Check{
 		ID:    "C04",
 		Level: "model_checking",
 		Rule: "grid: every (max_nodes 1..6, cloud max 1..8, nodes, tainted 0..2, utilisation 80/150/200/400 %, SetDesiredCapacity|fleet, normal|below-min|from-zero) single-scan case on the real controller, " +
-			"plus the bound monitor on the C01/C02 history scenarios (deviation-bounded DFS); non-trivial = scans whose reference class is up/restore; distinct = (max_nodes, cloud max, class, |U|,|T|, observed taints/untaints/requests)",
+			"plus the bound and clamp monitors on histories (deviation-bounded DFS): groups with force-tainted / expired nodes at 200 % in fleet and SetDesiredCapacity mode with failing terminate calls and the cloud maximum edited at run time (configured and auto-discovered bounds), and the C02 scenarios; non-trivial = scans whose reference class is up/restore; distinct = (max_nodes, cloud max, class, |U|,|T|, observed taints/untaints/requests)",
 		Grid:       c04Grid,
 		ReplayCase: replayGrid(c04Build, c04Monitors),
-		Scenarios:  func(tier string) []*h.Scenario { return histScenarios(tier, C02Scenarios) },
+		Scenarios:  func(tier string) []*h.Scenario { return histScenarios(tier, c04HistScenarios, C02Scenarios) },
 		Monitors:   c04Monitors,
 		Bound: func(tier string) int {
 			if tier == "thorough" {
